@@ -707,3 +707,44 @@ V('c08-g-name-only', 'C08', 'hl7apy/core.py',
 V('twin-c08-g-split-if', 'C08', 'hl7apy/core.py',
   "        elif self.is_unknown():  # the message become a known message\n            self.name = message_structure\n            self._find_structure()\n",
   "        if self.is_unknown():\n            self.name = message_structure\n            self._find_structure()\n", expect='clean')
+V('reg-c07-traversal-delims', 'C07', 'hl7apy/core.py',
+  "        if self.traversal_parent is not None:\n            return self.traversal_parent.encoding_chars\n        return get_default_encoding_chars(self.version)",
+  "        return get_default_encoding_chars(self.version)", rule='C07-H')
+V('reg-c17-traversal-delims', 'C17', 'hl7apy/core.py',
+  "        if self.traversal_parent is not None:\n            return self.traversal_parent.encoding_chars\n        return get_default_encoding_chars(self.version)",
+  "        return get_default_encoding_chars(self.version)", rule='C17-H')
+V('twin-c07-h-single-chain', 'C07', 'hl7apy/core.py',
+  "        if self.parent is not None:\n            return self.parent.encoding_chars\n        if self.traversal_parent is not None:\n            return self.traversal_parent.encoding_chars\n        return get_default_encoding_chars(self.version)",
+  "        up = self.parent\n        if up is None:\n            up = self.traversal_parent\n        if up is not None:\n            return up.encoding_chars\n        return get_default_encoding_chars(self.version)",
+  expect='clean')
+V('reg-c12-proxy-value-promote-first', 'C12', 'hl7apy/core.py',
+  "            setattr(element, name, value)\n            if name == 'value':\n                element.set_parent_to_traversal()\n",
+  "            if name == 'value':\n                element.set_parent_to_traversal()\n            setattr(element, name, value)\n", rule='C12-O')
+
+# ---------------------------------------------------------------- rules added after the second round of seeds (C14-C19)
+V('c15-x-unguarded-subscript', 'C15', 'hl7apy/utils.py', "    elif 8 <= len(value) <= 11 and value[6] == '.':",
+  "    elif value[6] == '.' and 8 <= len(value) <= 11:", rule='C15-X')
+V('c15-x-weaker-bound', 'C15', 'hl7apy/utils.py', "    elif 8 <= len(value) <= 11 and value[6] == '.':",
+  "    elif 6 <= len(value) <= 11 and value[6] == '.':", rule='C15-X')
+V('c15-x-offset-sign-first', 'C15', 'hl7apy/base_datatypes.py',
+  "        if offset and offset[0] not in ('+', '-'):", "        if offset[0] not in ('+', '-') and offset:", rule='C15-X')
+V('twin-c15-x-len-gt', 'C15', 'hl7apy/utils.py', "    elif 8 <= len(value) <= 11 and value[6] == '.':",
+  "    elif len(value) > 7 and len(value) <= 11 and value[6] == '.':", expect='clean')
+V('twin-c15-x-try', 'C15', 'hl7apy/base_datatypes.py',
+  "        if offset and offset[0] not in ('+', '-'):\n            raise InvalidDateOffset(offset)",
+  "        try:\n            bad_sign = offset[0] not in ('+', '-')\n        except IndexError:\n            bad_sign = False\n        if bad_sign:\n            raise InvalidDateOffset(offset)",
+  expect='clean')
+V('c18-r-reload-always', 'C18', 'hl7apy/core.py',
+  "        elif self.is_unknown():  # the message become a known message\n            self.name = message_structure\n            self._find_structure()\n",
+  "        else:\n            self.name = message_structure\n            self._find_structure()\n", rule='C18-R')
+V('c18-r-reload-in-setter', 'C18', 'hl7apy/core.py',
+  "        children = super(Group, self).parse_children(text, **kwargs)\n        self.children = children",
+  "        children = super(Group, self).parse_children(text, **kwargs)\n        self._find_structure()\n        self.children = children", rule='C18-R')
+V('twin-c18-r-name-none', 'C18', 'hl7apy/core.py',
+  "        elif self.is_unknown():  # the message become a known message\n",
+  "        elif self.name is None:  # the message become a known message\n", expect='clean')
+V('twin-c18-r-pass-reference', 'C18', 'hl7apy/core.py',
+  "        children = super(Group, self).parse_children(text, **kwargs)\n        self.children = children",
+  "        children = super(Group, self).parse_children(text, **kwargs)\n        self._find_structure(self.reference)\n        self.children = children", expect='clean')
+V('c16-f-dot-payload', 'C16', 'hl7apy/mllp.py', 'r"(([^\\r]+\\r)*([^\\r]+\\r?))"', 'r"(.+)"', rule='C16-F')
+V('twin-c16-f-dotall-class', 'C16', 'hl7apy/mllp.py', 'r"(([^\\r]+\\r)*([^\\r]+\\r?))"', 'r"((?:[^\\r]+\\r)*(?:[^\\r]+\\r?))"', expect='clean')
